@@ -265,8 +265,9 @@ func csValue(rng *rand.Rand, t reflect.Type, fields []csField) reflect.Value {
 			f.spec.gen(rng, fv.Field(0), f.schema)
 			fv.Field(1).SetInt(genInt(rng, 64))
 		default:
-			if f.omit && rng.Intn(3) == 0 {
-				continue // the zero value: written as null, read back as the zero value
+			// (the zero time.Time, year 1, is outside the range of the long-based time schemas: not forced for plain times)
+			if (f.omit && rng.Intn(3) == 0) || (f.spec.class != "time" && rng.Intn(6) == 0) {
+				continue // the zero value: under omitempty written as null, otherwise as a value like any other (all-zero fixed, 0, "", false)
 			}
 			f.spec.gen(rng, fv, f.schema)
 		}
@@ -334,7 +335,9 @@ func driveCallerSchemas(c *driverCtx, prop string) error {
 						continue
 					}
 					fields := []csField{{sp, sch, wrap, omit}, {specs[0], `"long"`, "", false}}
-					t, sj := csRecord(fields, fmt.Sprintf("R%d", n))
+					// the same record name (and the same Go type, StructOf is canonical) for every schema of this field type:
+					// whatever the library remembers per (type, record name, field names) must not leak between schemas
+					t, sj := csRecord(fields, fmt.Sprintf("R_%s_%s%v", strings.NewReplacer("-", "_", ".", "_").Replace(sp.class), wrap, omit))
 					n++
 					for k := 0; k < c.pick(4, 120); k++ {
 						emitCS(c, prop, fmt.Sprintf("%s|%s|%s|%s%s", prop, sp.class, shortSchema(sch), wrap, map[bool]string{true: "omitempty"}[omit]), sj, t, csValue(c.rng, t, fields), true)
